@@ -162,3 +162,12 @@ func GuardStrings(g []Guard) []string {
 	}
 	return out
 }
+
+// ReadRepoFile reads a non-Go file of the repository (honouring the overlay).
+func (e *Env) ReadRepoFile(rel string) ([]byte, error) {
+	path := filepath.Join(e.RepoDir, rel)
+	if ov, ok := e.Overlay[path]; ok {
+		return ov, nil
+	}
+	return os.ReadFile(path)
+}
